@@ -438,22 +438,35 @@ def r13d(ctx: Context) -> None:
             rule.fail(key, where(register), f"'{name}' accumulates across initialisations")
     # API: a new application object per operation
     api_calls = 0
+
+    def origins(func: FuncInfo, expr: Optional[ast.AST], depth: int = 0) -> List[Tuple[FuncInfo, ast.AST, bool]]:
+        """where the object that receives main() was made: (function, node, made afresh there)"""
+        if not isinstance(expr, ast.Name) or depth > 3:
+            return [(func, expr or func.node, False)]
+        if expr.id in func.params:
+            found: List[Tuple[FuncInfo, ast.AST, bool]] = []
+            for caller_site in prog.callers.get(func.qualname, []):
+                bound = Program.bind_args(func, caller_site.node, skip_self=func.kind in ("instance", "class"))
+                found.extend(origins(caller_site.caller, bound.get(expr.id), depth + 1))
+            return found or [(func, expr, False)]
+        made = []
+        for node in walk_local(func.node):
+            if isinstance(node, ast.Assign) and any(isinstance(t, ast.Name) and t.id == expr.id for t in node.targets):
+                typ = prog.infer(func, node.value)
+                made.append((func, node, isinstance(node.value, ast.Call) and bool(typ and typ[0] == "cls" and typ[1].qualname == MAIN)))
+        return made or [(func, expr, False)]
+
     for func in prog.iter_functions("pymarkdown.api."):
         for site in prog.sites_in(func):
             if main in site.targets:
-                api_calls += 1
                 recv = site.node.func.value if isinstance(site.node.func, ast.Attribute) else None
-                key = func_key(func, site.node)
-                fresh = False
-                if isinstance(recv, ast.Name):
-                    for node in walk_local(func.node):
-                        if isinstance(node, ast.Assign) and any(isinstance(t, ast.Name) and t.id == recv.id for t in node.targets):
-                            typ = prog.infer(func, node.value)
-                            fresh = isinstance(node.value, ast.Call) and bool(typ and typ[0] == "cls" and typ[1].qualname == MAIN)
-                if fresh:
-                    rule.ok(key, "new PyMarkdownLint per call")
-                else:
-                    rule.fail(key, site.where, "an API operation reuses an application object: plugin and pragma state of an earlier call leaks into this one")
+                for holder, node, fresh in origins(func, recv):
+                    api_calls += 1
+                    key = func_key(holder, node)
+                    if fresh:
+                        rule.ok(key, "new PyMarkdownLint per call")
+                    else:
+                        rule.fail(key, where(holder, node), "an API operation reuses an application object: plugin and pragma state of an earlier call leaks into this one")
     if api_calls < 4:
         raise AnalysisError(f"only {api_calls} API calls of main found")
 
